@@ -101,6 +101,37 @@ def h_wrapper(rp):
     return _common(rp, args, lambda: wrapper(ts, *args), clauses, args)
 
 
-HANDLERS = [("postprocess_latent.apply_postprocessing_rules", h_postprocess),
+def h_eq(rp):
+    from replay.harness import build, view
+    from contracts import func_specs as FS
+    notes = []
+    a, b = [build(x, notes) for x in rp["args"]]
+    return _common(rp, [a, b], lambda: (a == b, hash(a) == hash(b)),
+                   lambda res: FS.eq_clauses(_env(), view(a), view(b), res[0], res[1]), [a, b])
+
+
+def h_roundtrip(rp):
+    from replay.harness import build, view
+    from contracts import func_specs as FS
+    from ctparse.corpus import parse_nb_string
+    import ctparse.types as T
+    notes = []
+    (x,) = [build(v, notes) for v in rp["args"]]
+
+    def call():
+        r = parse_nb_string(x.nb_str())
+        return (r, r == x)
+
+    def clauses(res):
+        shape = None
+        if isinstance(x, T.Time):
+            s = str(x)
+            shape = s[0] in "0123456789X" and s[-1] == ")" and " - " not in s
+        return FS.roundtrip_clauses(_env(), view(x), view(res[0]), res[1], shape)
+    return _common(rp, [x], call, clauses, [x])
+
+
+HANDLERS = [("types.Artifact.__eq__", h_eq), ("corpus.parse_nb_string.nb_str", h_roundtrip),
+            ("postprocess_latent.apply_postprocessing_rules", h_postprocess),
             ("types.Time.", h_accessor), ("types.Interval.", h_accessor),
             ("rule.rule.fwrapper.wrapper", h_wrapper)]
